@@ -355,3 +355,21 @@ def c20(run):
                    what="call binding: what the host function received / the outcome differs from the specification (or x.f(a) differs from f(x, a))")
     path = drive_eval(run, "c07", run.q(800, 20000), depth=run.q(4, 6))
     validate_trace(run, "CelEvalTrace", path, nontrivial=lambda c: len(c.get("log", [])) >= 1)
+
+
+@check("C19")
+def c19(run):
+    run.rule = ("model: all programs with <=2 operators with names in every position (operands, receivers, arguments, indices, list elements, map keys/values, "
+                "has(), macro ranges and bodies, undeclared names): invariant LookedUpSubsetRefs (every name the machine looks up occurs in the source; an undeclared "
+                "outcome names something looked up); impl->spec: seeded untyped programs (depth<=5..7) over random identifier and function names, each run against 4 "
+                "contexts (one defining exactly the reported names); CelRefsTrace checks looked(spec run) subset-of R, the four observable clauses, and each run as an "
+                "ordinary evaluation; non-trivial = some run ends in an undeclared reference or the program reports at least 2 names")
+    mc_vectors(run, "CelEvalMC_C19")
+    run.exhaustive = True
+    path = run.work("refs.ndjson")
+    celconf(["drive-refs", "--seed", run.seed, "--n", run.q(2500, 60000), "--depth", run.q(5, 7), "--out", path])
+    nt = lambda c: any(r["out"].get("c") == "undeclared" for r in c["runs"]) or len(c["refs"]["vars"]) + len(c["refs"]["fns"]) >= 2
+    validate_trace(run, "CelRefsTrace", path, nontrivial=nt,
+                   sample_key=lambda c: {"src": c["src"], "vars": [x["name"] for x in c["refs"]["vars"]], "fns": [x["name"] for x in c["refs"]["fns"]],
+                                         "outcomes": [(r["out"].get("k"), r["out"].get("c"), r["out"].get("name")) for r in c["runs"]]},
+                   what="references: a looked-up / undeclared name is not reported, a fully defined context still failed with undeclared, or the report is not an identifier of the source")
